@@ -271,6 +271,9 @@ func RunVM(req *sb.Request, mods map[string]ast.AnalyzedProgram) (res sb.RunResu
 	for _, inv := range req.Invocations {
 		res.Invs = append(res.Invs, invokeVM(&vm, compiled, rec, inv))
 	}
+	for k := 0; k < req.RerunCompiled; k++ {
+		res.Reruns = append(res.Reruns, rerunCompiled(req, compiled, lim))
+	}
 	rec.mu.Lock()
 	rec.closed = true
 	rec.mu.Unlock()
@@ -324,6 +327,38 @@ func evalAnnotations(vm *hsruntime.VM, compiled compiler.CompileOutput) []string
 		}
 	}
 	sort.Strings(out)
+	return out
+}
+
+// rerunCompiled runs the compiled program once more on a fresh VM with a fresh host (what a host does that
+// keeps compiled programs around): nothing of an earlier run may show.
+func rerunCompiled(req *sb.Request, compiled compiler.CompileOutput, lim hsruntime.CoreLimits) (out sb.Rerun) {
+	rec := &Recorder{}
+	host := Host{Req: req, Rec: rec}
+	pctx := NewPollCtx(0, 0)
+	var ctx context.Context = pctx
+	var cancel context.CancelFunc = pctx.Cancel
+	var vm hsruntime.VM
+	out.InitPanic = func() (p string) {
+		defer func() {
+			if r := recover(); r != nil {
+				p = firstLine(fmt.Sprint(r))
+			}
+		}()
+		vm = hsruntime.NewVM(compiled, VMExec{H: host}, &ctx, &cancel, homescript.TestingVmScopeAdditions(), lim)
+		return ""
+	}()
+	if out.InitPanic != "" {
+		return out
+	}
+	pctx.Arm(0, req.PollCap)
+	vm.SpawnAsync(hsruntime.MainFn(), nil, nil, nil)
+	_, i := vm.Wait()
+	out.Outcome = vmOutcome(i)
+	rec.mu.Lock()
+	rec.closed = true
+	out.Writes = append([]string{}, rec.Writes...)
+	rec.mu.Unlock()
 	return out
 }
 
